@@ -11,7 +11,9 @@ TECHNIQUE = ("differential runtime monitor: network.message.pack/parse vs indepe
              "type, re-pack of the parsed dict); plus call histories on one network with long-lived, in-place changed and shared "
              "objects, a reused receive buffer and interleaved failing calls; every second value set once more in another value-TYPE "
              "spelling (text / bytes-likes / int subclasses / 0-1 flags / other constructors) with the caller's arguments compared before "
-             "and after; string and array lengths 254/255/256/65535/65536 for every field; one long run of > 2^16 judged calls")
+             "and after; string and array lengths 254/255/256/65535/65536 for every field; one long run of > 2^16 judged calls; "
+             "the messages embedding a transaction / header / block also on the networks with their own Tx / Block classes "
+             "(BCH, GRS, DOGE, XTN, BTG), BTG headers against an independent encoder of the BTG header layout")
 RULE = ("cases: (network BTC/LTC, message name, field values) for every key of STANDARD_P2P_MESSAGES enumerated at run time; values "
         "are per declared type boundary values (u32 0/1/2^31/2^32-1, u64 to 2^64-1, 6-byte ids to 2^48-1, u8 0/255, booleans, "
         "compact-size boundaries), arrays of length 0/1/2/252/253/1000, IPv4-mapped and IPv6 addresses, ports 0/1/255/256/8333/65535, "
@@ -49,7 +51,14 @@ RULE = ("cases: (network BTC/LTC, message name, field values) for every key of S
         "Length boundaries: every string and array field once per run with 254, 255, 256, 65535 and 65536 bytes / elements (quick: one "
         "of three transaction arrays and one message of each same-layout group at 2^16, by seed). "
         "Long run: one shard with 2^16+100 (thorough 2^17+100) rounds on the BTC packer/parser, each a ping with a running nonce plus one "
-        "other small message around long-lived objects, every call judged.")
+        "other small message around long-lived objects, every call judged. "
+        "Other networks: every network object has its own packer / parser around its Block and Tx classes, so tx, block, headers, "
+        "merkleblock, blocktxn and cmpctblock value sets are also packed and parsed on BCH, GRS (a one-transaction block whose root is the "
+        "single-SHA-256 transaction id), DOGE, XTN and BTG, each (network, message) pair required. On BTG the header-carrying messages "
+        "(headers, merkleblock, block) get eight-field headers: height 0 / 1 / fork-2 / fork-1 / fork (491407) / fork+1 / 2^31 / 2^32-1 / "
+        "random on either side of the fork height, 32-byte nonce (random / zero / four bytes then zeros), solution of 0 / 1 / 36 / 100 / "
+        "252 / 253 / 400 / 1344 / random < 600 bytes, header arrays of 0-5 and 253 entries; the height and solution-length classes reached "
+        "are counted and required (altnet.btg.*). Distinct by (network, message, reference bytes).")
 ASSUMPTIONS = [
     "reference encoders in vmon/refs/p2p.py (with txser, blockser) follow the protocol documents; self-tested on every run against "
     "hand-assembled byte strings, documented examples (address 198.27.100.9:8333, feefilter 48508, filterload b50f/11) and "
@@ -81,6 +90,14 @@ ASSUMPTIONS = [
     "operations on lists the caller built); Block fields other than the nonce are never assigned. Calls with invalid values and "
     "parses of damaged bytes are not judged (they may raise or not); only the valid calls after them are. Damaged bytes are "
     "limited to cut-off / empty / trailing-garbage encodings (arbitrary bytes can carry a 2^64 array count that the parser walks)",
+    "other networks: 'the Bitcoin wire encoding' of a header on a network whose header is not Bitcoin's is read as that network's "
+    "documented header layout - for BTG (BTCGPU Technical Spec) version, previous hash, merkle root, height, 28 zero bytes, time, bits, "
+    "32-byte nonce, compact-size prefixed solution (vmon/refs/btgser.py, self-tested on a hand-assembled 1487-byte header) - at EVERY "
+    "height: the fields of a BTG header include height and solution, an 80-byte encoding carries neither, so packing then parsing "
+    "could not return them. The field values of a BTG header are the eight constructor arguments, read back as the attributes of the "
+    "same names; the reserved bytes are not a field. The fork height is only used to choose heights and to name the class of a witness "
+    "in the mechanism key. BCH / GRS / DOGE / XTN / BTG transactions and the GRS / DOGE / XTN headers have Bitcoin's layout; a value "
+    "set the network's own constructors refuse is counted, not judged",
 ]
 EXPLANATION = ("for each value set: pack(name, **values) must equal the reference bytes; parse(name, reference bytes) must return equal "
                "field values (InvItem, PeerAddress, Tx, Block compared field-wise). A table key without a generator aborts the run. "
@@ -88,7 +105,10 @@ EXPLANATION = ("for each value set: pack(name, **values) must equal the referenc
                "argument objects; a failing pack is re-tried once and once with freshly built objects to name the mechanism "
                "(wrong once = state left by an earlier call; right with fresh objects = state kept on the reused object). A wrong answer "
                "to a second call spelling is narrowed by repeating the plain call and the spelling one dimension at a time "
-               "(not repeatable / keyword order / container spelling / undeclared keyword / input spelling)")
+               "(not repeatable / keyword order / container spelling / undeclared keyword / input spelling). On BTG the same two "
+               "demands are made of headers / merkleblock / block against refs/btgser; when pack returns other bytes, these bytes are "
+               "also parsed back (p2p.altnet.btg.parse_of_packed_raises / pack_then_parse_field_mismatch), the keys carry "
+               "`.below_fork_height` when a header of the message lies below the BTG fork height")
 TIMEOUT = {"quick": 1800, "thorough": 3 * 3600}
 
 N_SHARDS = 16
@@ -103,7 +123,9 @@ def plan(tier, seed):
 
 
 def configurations(tier):
-    return ["BTC network.message", "LTC network.message (LTCBlock/LTCTx)"]
+    return ["BTC network.message", "LTC network.message (LTCBlock/LTCTx)",
+            "BCH / GRS / DOGE / XTN network.message (tx, block, headers, merkleblock, blocktxn, cmpctblock)",
+            "BTG network.message (eight-field header: headers, merkleblock, block; and tx, blocktxn, cmpctblock)"]
 
 
 def selftest(rec):
@@ -2227,8 +2249,16 @@ def judge_btg(name, fields, rec, sample=False):
     elif got != want:
         rec.violation("p2p.altnet.btg.pack_bytes_mismatch%s.%s" % (tag, name), case, got, want)
         # the other half of the statement on what pack DID return: packing then parsing returns the same field values
-        st2, d2 = observe(N.message.parse, name, got)
-        if st2 != "ok":
+        # (a merkleblock only when the bytes are a well-formed BTG message: misaligned bytes can carry a 2^32 hash count
+        # that the parser walks without ever failing)
+        if name == "merkleblock" and observe(RBTG.decode, name, bytes(got))[0] != "ok":
+            rec.ev("altnet.btg.packed_bytes_not_parsed_back")
+            st2, d2 = "ok", None
+        else:
+            st2, d2 = observe(N.message.parse, name, got)
+        if d2 is None and st2 == "ok":
+            pass
+        elif st2 != "ok":
             rec.violation("p2p.altnet.btg.parse_of_packed_raises%s.%s" % (tag, name), case, d2, fields)
         else:
             bad = btg_mismatches(N, name, d2, fields)
